@@ -912,6 +912,7 @@ CONSTANTS
  MaxSends = %d
  Kinds = {"ping", "pub", "part1", "part3", "partbig", "backlog"}
  BacklogHold = 14
+ DevStalledReceiver = TRUE
  Priors = {"none", "long"}
 INVARIANTS SilentDropped WillIffExpired Emit
 PROPERTIES ActiveNeverDropped
@@ -923,7 +924,7 @@ def c19(tier):
     import random
     v = Verdict("C19", tier)
     thorough = tier == "thorough"
-    r = core.cached_tlc("keepalive2-%d" % (4 if thorough else 3), "KeepAlive", KA_CFG % (4 if thorough else 3), workers=1, timeout=600)
+    r = core.cached_tlc("keepalive4-%d" % (4 if thorough else 3), "KeepAlive", KA_CFG % (4 if thorough else 3), workers=1, timeout=600)
     v.tlc("KeepAlive", r)
     scheds = core.behaviours(r.lines)
     rng = random.Random(core.seed())
@@ -932,7 +933,7 @@ def c19(tier):
     # client: the deadline must be re-armed by EVERY packet); plus a seeded sample of the rest
     # (the variants "keeps receiving" and "resumes a session with another keep-alive" with at most one packet before the
     # silence, the plain client with up to two)
-    fixed = [s for s in scheds if len(s) <= 2 or (len(s) == 3 and not s[0].get("fed") and s[0].get("prior") == "none")]
+    fixed = [s for s in scheds if len(s) <= 2 or (len(s) == 3 and (not s[0].get("fed") or s[0].get("deaf")) and s[0].get("prior") == "none")]
     rest = [s for s in scheds if s not in fixed]
     rng.shuffle(rest)
     chosen = fixed + rest[:(16 if not thorough else 200)]
